@@ -16,7 +16,7 @@ from checks import C28
 
 
 def generate(ctx):
-    return C28.generate(ctx)
+    return C28.generate_consts(ctx)
 
 
 def run(ctx):
